@@ -409,6 +409,25 @@ func gen(r *rand.Rand, prop, tier string, index int) any {
 	if r.IntN(25) == 0 {
 		s.ResetAtWrite = 1 + r.IntN(30)
 	}
+	if r.IntN(25) == 0 {
+		// nothing is ever allocated: the peer's only opens are refused by the
+		// mux itself (invalid maximum packet size), the local side opens
+		// nothing; then the peer talks to the small ids such a channel would
+		// have been given. Every one of those is an unknown channel.
+		s.PeerOps, s.Locals, s.Probes, s.Park, s.ResetAtWrite = nil, nil, nil, Park{}, 0
+		for i, n := 0, 1+r.IntN(3); i < n; i++ {
+			s.PeerOps = append(s.PeerOps, genPeerOp(r, "badopen"))
+		}
+		for i, n := 0, 1+r.IntN(20); i < n; i++ {
+			s.PeerOps = append(s.PeerOps, PeerOp{Kind: "creq", Tgt: "guess", Ref: r.IntN(4), Flag: r.IntN(4) != 0, OK: r.IntN(2) == 0})
+			if r.IntN(6) == 0 {
+				s.PeerOps = append(s.PeerOps, genPeerOp(r, "badopen"))
+			}
+		}
+		if r.IntN(2) == 0 {
+			s.PeerOps = append(s.PeerOps, PeerOp{Kind: "data", Tgt: "guess", Ref: r.IntN(4), N: 1 + r.IntN(8)})
+		}
+	}
 	return s
 }
 
@@ -566,6 +585,10 @@ type run struct {
 	lnOpen    *chanInfo // the open the peer never answers (parked at the end)
 	nextReq   int
 	maxLocal  uint32
+	// validOpens: CHANNEL_OPENs of the peer that the mux may accept;
+	// noLocalOpens: the scenario has no local OpenChannel call at all
+	validOpens   int
+	noLocalOpens bool
 
 	// what the peer has sent
 	gReplies    map[string]bool    // "payload|flag" of every global reply pushed
@@ -871,6 +894,10 @@ func (r *run) target(op PeerOp) (id uint32, ci *chanInfo, class string) {
 			return r.known[op.Ref%len(r.known)], nil, "known"
 		}
 	case "guess":
+		if r.validOpens == 0 && r.noLocalOpens {
+			// no channel has ever been allocated on the local side
+			return uint32(op.Ref % 4), nil, "unknown"
+		}
 		return uint32(op.Ref % 4), nil, "guess"
 	}
 	return unknownIDs[op.Ref%len(unknownIDs)], nil, "unknown"
@@ -969,6 +996,8 @@ func (r *run) peerOp(i int, op PeerOp) {
 		rt.Event("peer op%d: CHANNEL_OPEN p:%d window %d maxpacket %d", i, k, op.Win, op.MaxPkt)
 		if op.MaxPkt < 9 || op.MaxPkt > 1<<31 {
 			rt.Fault("peer-open-with-invalid-max-packet")
+		} else {
+			r.validOpens++
 		}
 		r.push(ssh.Marshal(&msgChannelOpen{ChanType: fmt.Sprintf("p:%d", k), SenderID: uint32(100 + k), Window: op.Win, MaxPacket: op.MaxPkt, Extra: []byte(strconv.Itoa(k))}))
 	case "data":
@@ -1681,6 +1710,14 @@ func runHarness(c *core.Ctx, scnAny any) {
 		gReplies: map[string]bool{}, gAnswered: map[int]bool{}, cAnswered: map[int]bool{}, gWaiting: map[int]bool{}, cReplies: map[uint32]*[2]int{}, myIDAddr: map[uint32]uint32{}, myIDUsed: map[uint32]int{},
 		confirmsTo: map[uint32]int{}, freed: map[uint32]int{}, foreignTo: map[uint32]int{}, strayClose: map[uint32]int{}, dupIDs: map[uint32]bool{}, failMsgAddr: map[string]uint32{}, failMsgUsed: map[string]bool{}}
 	r.p = &pconn{r: r}
+	r.noLocalOpens = !scn.Park.Open && len(scn.Probes) == 0
+	for _, lt := range scn.Locals {
+		for _, op := range lt.Ops {
+			if op.Kind == "open" {
+				r.noLocalOpens = false
+			}
+		}
+	}
 	c.Sim.OnIdle = r.onIdle
 	meta, _, _, _ := simnet.Pipe("meta")
 	conn, chans, reqs := ssh.VerifNewMuxConn(r.p, meta)
